@@ -21,6 +21,7 @@ type EVal struct {
 	C     constant.Value // untyped constant
 	Ghost string         // "int" (mathematical Int), "log", "event", "nil"
 	Ev    *Term          // event index for Ghost=="event"
+	Arr   *Term          // for a []byte view of a ghost byte array (event buffer): the array itself; V is a slice header with region 0
 }
 
 type Env struct {
@@ -598,6 +599,12 @@ func (env *Env) selector(x *ast.SelectorExpr) EVal {
 			return EVal{V: Val{f.Select(env.tr.get(st, "ev.epoch"), v.Ev)}, T: types.Typ[types.Uint64]}
 		case "res":
 			return EVal{V: Val{f.Select(env.tr.get(st, "ev.res"), v.Ev)}, T: types.Typ[types.Int64]}
+		case "data":
+			n := f.Select(env.tr.get(st, "ev.n"), v.Ev)
+			return EVal{V: Val{f.BVi(64, 0), f.Select(env.tr.get(st, "ev.boff"), v.Ev), n, n}, T: types.NewSlice(types.Typ[types.Uint8]), Arr: f.Select(env.tr.get(st, "ev.buf"), v.Ev)}
+		case "crc":
+			buf := f.Select(env.tr.get(st, "ev.buf"), v.Ev)
+			return EVal{V: Val{f.App("crc32", S32, buf, f.Select(env.tr.get(st, "ev.boff"), v.Ev), f.Select(env.tr.get(st, "ev.n"), v.Ev))}, T: types.Typ[types.Uint32]}
 		case "failed":
 			return env.boolVal(f.Neq(f.Select(env.tr.get(st, "ev.err"), v.Ev), f.BVi(64, 0)))
 		}
@@ -701,6 +708,9 @@ func (env *Env) indexExpr(x *ast.IndexExpr) EVal {
 	switch u := base.T.Underlying().(type) {
 	case *types.Slice:
 		i := env.toIndex64(idx)
+		if base.Arr != nil {
+			return EVal{V: Val{f.Select(base.Arr, f.Add(base.V[1], i))}, T: u.Elem()}
+		}
 		n := int64(nleaves(u.Elem()))
 		off := f.Add(base.V[1], f.Mul(i, f.BVi(64, n)))
 		lv := env.tr.loadLeaves(env.curState(), shape(u.Elem()), base.V[0], off)
@@ -776,18 +786,32 @@ func (env *Env) sliceExpr(x *ast.SliceExpr) EVal {
 	if x.High != nil {
 		hi = env.toIndex64(env.eval(x.High))
 	}
-	return EVal{V: Val{base.V[0], f.Add(base.V[1], f.Mul(lo, f.BVi(64, n))), f.Sub(hi, lo), f.Sub(base.V[3], lo)}, T: base.T}
+	return EVal{V: Val{base.V[0], f.Add(base.V[1], f.Mul(lo, f.BVi(64, n))), f.Sub(hi, lo), f.Sub(base.V[3], lo)}, T: base.T, Arr: base.Arr}
 }
 
 // ---------- calls: builtins, spec functions, conversions, preds
 
 func (env *Env) byteAt(s EVal, i *Term) *Term {
 	f := env.f()
+	if s.T == nil {
+		env.fail("expected a []byte")
+	}
 	u, ok := s.T.Underlying().(*types.Slice)
 	if !ok || nleaves(u.Elem()) != 1 || shape(u.Elem())[0].S != S8 {
 		env.fail("expected a []byte")
 	}
+	if s.Arr != nil {
+		return f.Select(s.Arr, f.Add(s.V[1], i))
+	}
 	return env.tr.heapSel(env.curState(), S8, s.V[0], f.Add(s.V[1], i))
+}
+
+// byteArray: the array holding the bytes of s (ghost array or heap region contents).
+func (env *Env) byteArray(s EVal) *Term {
+	if s.Arr != nil {
+		return s.Arr
+	}
+	return env.tr.inner(env.curState(), "8", s.V[0])
 }
 
 func (env *Env) callExpr(x *ast.CallExpr) EVal {
@@ -1035,7 +1059,11 @@ func (env *Env) callExpr(x *ast.CallExpr) EVal {
 		// devsize(f): size in bytes of the device behind f (what Seek(0, io.SeekEnd) reports)
 		argN(1)
 		v := env.eval(x.Args[0])
-		return EVal{V: Val{f.App("devsize", S64, env.identity(v))}, T: types.Typ[types.Int64]}
+		sz := f.App("devsize", S64, env.identity(v))
+		if !containsBound(sz, map[*Term]bool{}) {
+			env.tr.assume(f.And(f.SLe(f.BVi(64, 0), sz), f.SLe(sz, f.BVu(64, 1<<60))), "device size is non-negative (and below 1 EiB)")
+		}
+		return EVal{V: Val{sz}, T: types.Typ[types.Int64]}
 	case "implements":
 		// implements(x, "interface{...}"): the dynamic type of x has the methods of the given interface (type assertion succeeds)
 		argN(2)
@@ -1045,6 +1073,14 @@ func (env *Env) callExpr(x *ast.CallExpr) EVal {
 			env.fail("implements: second argument must be a string literal")
 		}
 		return env.boolVal(f.And(f.Neq(v.V[0], f.BVi(64, 0)), f.App("implements_"+sanitize(fmt.Sprintf("%x", strHash(constant.StringVal(nm.C)))), SBool, v.V[0])))
+	case "sameslice":
+		// sameslice(x, y): same backing region, offset and length (y is typically a slice expression over a parameter)
+		argN(2)
+		a, b := env.eval(x.Args[0]), env.eval(x.Args[1])
+		if !isSlice(a.T) || !isSlice(b.T) {
+			env.fail("sameslice needs two slices")
+		}
+		return env.boolVal(f.And(f.Eq(a.V[0], b.V[0]), f.Eq(a.V[1], b.V[1]), f.Eq(a.V[2], b.V[2])))
 	case "written":
 		// written(w): total number of bytes passed to w.Write so far (ghost counter of an io.Writer)
 		argN(1)
@@ -1085,7 +1121,31 @@ func (env *Env) callExpr(x *ast.CallExpr) EVal {
 	case "crc32":
 		argN(1)
 		a := env.eval(x.Args[0])
-		return EVal{V: Val{env.tr.crc32Of(env.curState(), a.V)}, T: types.Typ[types.Uint32]}
+		return EVal{V: Val{f.App("crc32", S32, env.byteArray(a), a.V[1], a.V[2])}, T: types.Typ[types.Uint32]}
+	case "oldbytes":
+		// oldbytes(b): the bytes b had on entry, as a ghost slice (use with predicates that also mention post-state values)
+		argN(1)
+		a := env.eval(x.Args[0])
+		if !isSlice(a.T) {
+			env.fail("oldbytes needs a slice")
+		}
+		st := env.old
+		if st == nil {
+			st = env.st
+		}
+		if a.Arr != nil {
+			return a
+		}
+		return EVal{V: a.V, T: a.T, Arr: env.tr.inner(st, "8", a.V[0])}
+	case "hdrcrc":
+		// hdrcrc(h): CRC32 of h[0:92] computed with the CRC field (bytes 16..19) taken as zero
+		argN(1)
+		a := env.eval(x.Args[0])
+		arr := env.byteArray(a)
+		for k := int64(16); k < 20; k++ {
+			arr = f.Store(arr, f.AddC(a.V[1], k), f.BVi(8, 0))
+		}
+		return EVal{V: Val{f.App("crc32", S32, arr, a.V[1], f.BVi(64, 92))}, T: types.Typ[types.Uint32]}
 	case "mathint":
 		argN(1)
 		v := env.eval(x.Args[0])
@@ -1117,10 +1177,15 @@ func (env *Env) callExpr(x *ast.CallExpr) EVal {
 			env.fail("typeis: unknown type")
 		}
 		return env.boolVal(f.Eq(v.V[0], f.BVu(64, typeID(t))))
-	case "iscontent":
-		argN(1)
+	case "errhas":
+		// errhas(err, T): errors.As(err, *T) would succeed (T occurs in err's chain)
+		argN(2)
 		v := env.eval(x.Args[0])
-		return env.boolVal(f.App("err_content", SBool, v.V[0], v.V[1], v.V[2]))
+		t := env.lookupType(x.Args[1])
+		if t == nil {
+			env.fail("errhas: unknown type")
+		}
+		return env.boolVal(f.And(f.Neq(v.V[0], f.BVi(64, 0)), env.tr.errHas(t, v.V)))
 	case "held":
 		argN(1)
 		v := env.lockIdent(x.Args[0])
